@@ -308,6 +308,30 @@ func TestC18Shutdown(t *testing.T) {
 				t.Fatalf("VERIF-INCONCLUSIVE in-flight work (%s) did not start", wk.kind)
 			}
 		}
+		// clients that have connected and say nothing (a port scanner, a health probe that hangs, a
+		// client still busy with its TLS set-up): open work of the dullest kind
+		var silent []string
+		var silentConns []net.Conn
+		defer func() {
+			for _, c := range silentConns {
+				c.Close()
+			}
+		}()
+		for _, k := range kinds {
+			if k == "tcp(stalled-upstream)" || rapid.IntRange(0, 2).Draw(t, "silent-client-on-"+k) != 0 {
+				continue
+			}
+			c, err := net.DialTimeout("tcp", addrs[k], 2*time.Second)
+			if err != nil {
+				t.Fatalf("VERIF-INCONCLUSIVE dial: %v", err)
+			}
+			silentConns = append(silentConns, c)
+			silent = append(silent, k)
+			hx.Class("silent-client-on:" + k)
+		}
+		if len(silent) > 0 {
+			time.Sleep(20 * time.Millisecond) // accepted
+		}
 		// the shutdown moment relative to the start of the work
 		time.Sleep(time.Duration(rapid.IntRange(0, 30).Draw(t, "moment_pct")) * W / 100 / 3)
 
@@ -330,11 +354,11 @@ func TestC18Shutdown(t *testing.T) {
 		select {
 		case took = <-shutdownDone:
 		case <-time.After(W + 6*time.Second):
-			t.Fatalf("proxy.Shutdown(%v) has not returned %v after it was called; mix %v, open work: %s", W, time.Since(shutdownAt).Round(time.Millisecond), kinds, describeWorks(works))
+			t.Fatalf("proxy.Shutdown(%v) has not returned %v after it was called; mix %v, open work: %s, silent clients on %v", W, time.Since(shutdownAt).Round(time.Millisecond), kinds, describeWorks(works), silent)
 		}
 		hx.Eval()
 		if took > W+2*time.Second {
-			t.Fatalf("proxy.Shutdown(%v) returned after %v; mix %v, open work: %s", W, took, kinds, describeWorks(works))
+			t.Fatalf("proxy.Shutdown(%v) returned after %v; mix %v, open work: %s, silent clients on %v", W, took, kinds, describeWorks(works), silent)
 		}
 		// (2) work that finishes within the wait completes normally
 		for _, wk := range works {
@@ -349,6 +373,10 @@ func TestC18Shutdown(t *testing.T) {
 			case <-time.After(W + 5*time.Second):
 				t.Fatalf("in-flight %s work of %v never completed\nmix %v", wk.kind, wk.dur, kinds)
 			}
+		}
+		// the silent clients give up now (a listener's serve function may wait for them)
+		for _, c := range silentConns {
+			c.Close()
 		}
 		serveWG.Wait()
 		if len(kinds) >= 2 && hasNever {
